@@ -25,6 +25,7 @@ import (
 	"verifmc/chainkit"
 	"verifmc/core"
 	"verifmc/node"
+	"verifmc/vorder"
 
 	"github.com/LemoFoundationLtd/lemochain-core/chain/account"
 	"github.com/LemoFoundationLtd/lemochain-core/chain/types"
@@ -192,8 +193,28 @@ func runCase(c caseT, r *core.Result, deep bool) {
 		}
 	}
 
+	// (1c) map iteration order: every `for k, v := range m` over a map in chain/account,
+	// chain/transaction, chain/consensus, chain/types, chain/vm and the store's candidate / block
+	// bookkeeping is rewritten by the source overlay (pass maprange) and visits its keys in the order
+	// the policy says (all n! orders for maps of up to 3 keys, 6 spread-out ones above). The mined
+	// block must not depend on it, and a validator running under another order must accept the block
+	// and end in the miner's state.
+	for pol := 1; pol <= vorder.Policies; pol++ {
+		vorder.SetPolicy(pol)
+		b5, _, err5 := w.F.Make(node.BlockSpec{Parent: w.Head, Miner: node.Deputy(0), Time: tm, Txs: w.Txs(c.List), Extra: "c01", NoSave: true})
+		vorder.SetPolicy(0)
+		r.Add("map_order_variants", 1)
+		if err5 != nil {
+			viol("map-order/no-block", fmt.Sprintf("under map iteration order %d the miner produces no block (%v)", pol, err5))
+			continue
+		}
+		if b5.Hash() != blk.Hash() {
+			viol("map-order/changes-block/"+headerDiff(blk, b5), fmt.Sprintf("under map iteration order %d the mined block differs (%s) from the one mined under the runtime's order", pol, headerDiff(blk, b5)))
+		}
+	}
+
 	// (2) restarted validator
-	check := func(tag string, v *node.Node) {
+	checkB := func(tag string, v *node.Node, blk *types.Block, mstate map[common.Address]string, packaged []string) {
 		v.Use()
 		err := v.InsertQuiet(node.Wire(blk))
 		w.F.Use()
@@ -209,14 +230,70 @@ func runCase(c caseT, r *core.Result, deep bool) {
 			viol("state-differs/"+tag+"/"+f, fmt.Sprintf("%s validator accepted the block but its account data differs from the miner's:\n%s", tag, detail))
 		}
 	}
-	dir := core.ScratchDir("c01v")
-	if out, err := exec.Command("cp", "-r", template+"/.", dir).CombinedOutput(); err != nil {
-		panic(fmt.Sprintf("cp template: %v %s", err, out))
+	check := func(tag string, v *node.Node) { checkB(tag, v, blk, mstate, packaged) }
+	restarted := func() *node.Node {
+		dir := core.ScratchDir("c01v")
+		if out, err := exec.Command("cp", "-r", template+"/.", dir).CombinedOutput(); err != nil {
+			panic(fmt.Sprintf("cp template: %v %s", err, out))
+		}
+		return node.Reopen(dir, 1, node.K("observer"))
 	}
-	v2 := node.Reopen(dir, 1, node.K("observer"))
+	v2 := restarted()
 	check("restarted", v2)
 	v2.Destroy()
 	r.Add("validations_restarted", 1)
+	// validators under controlled map orders: reversed always, all six for the short lists
+	pols := []int{2}
+	if deep {
+		pols = []int{1, 2, 3, 4, 5, 6}
+	}
+	for _, pol := range pols {
+		v5 := restarted()
+		vorder.SetPolicy(pol)
+		check(fmt.Sprintf("restarted(map-order-%d)", pol), v5)
+		vorder.SetPolicy(0)
+		v5.Destroy()
+		r.Add("validations_map_order", 1)
+	}
+
+	// (1b) the block is full: for every gas limit at which the miner's gas pool runs dry right at one
+	// of the transactions (or, inside a box, at one of its sub-transactions) the miner drops what does
+	// not fit. The dropped transactions must leave no trace: the block equals the one mined with the
+	// same limit from exactly the transactions that were packaged, and the restarted validator accepts
+	// it and ends in the miner's state.
+	for _, limit := range chainkit.GasBoundaries(blk) {
+		var ms3 map[common.Address]string
+		b3, _, err3 := w.F.Make(node.BlockSpec{Parent: w.Head, Miner: node.Deputy(0), Time: tm, Txs: w.Txs(c.List), Extra: "c01", NoSave: true, GasLimit: limit,
+			Inspect: func(am *account.Manager, b *types.Block) {
+				ms3 = map[common.Address]string{}
+				for _, a := range addrsOf(b) {
+					ms3[a] = minerDump(am, w.Head.Hash(), a)
+				}
+			}})
+		r.Add("gas_limit_variants", 1)
+		if err3 != nil {
+			viol("full-block/no-block", fmt.Sprintf("with block gas limit %d the miner produces no block (%v)", limit, err3))
+			continue
+		}
+		p3 := make([]string, len(b3.Txs))
+		for i, tx := range b3.Txs {
+			p3[i] = w.NameOf(tx)
+		}
+		if len(p3) < len(packaged) {
+			r.Add("gas_limit_variants_dropping", 1)
+		}
+		b4, _, err4 := w.F.Make(node.BlockSpec{Parent: w.Head, Miner: node.Deputy(0), Time: tm, Txs: w.Txs(p3), Extra: "c01", NoSave: true, GasLimit: limit})
+		if err4 != nil || b4.Hash() != b3.Hash() {
+			d := "no-block"
+			if err4 == nil {
+				d = headerDiff(b3, b4)
+			}
+			viol("full-block/dropped-tx-leaves-trace/"+d, fmt.Sprintf("with block gas limit %d the miner packages %v of %v, but the block differs (%s) from the one mined from exactly these transactions (err %v)", limit, p3, c.List, d, err4))
+		}
+		v3 := restarted()
+		checkB(fmt.Sprintf("restarted(full-block)"), v3, b3, ms3, p3)
+		v3.Destroy()
+	}
 
 	// (3) fresh validator with a different prior history: it first executes and rejects a corrupted sibling
 	if deep {
@@ -354,11 +431,14 @@ func main() {
 			}
 		}
 		teardown()
+		for i, n := range vorder.Loops {
+			r.Add(fmt.Sprintf("controlled_map_loops_with_%d_keys", i), n)
+		}
 		core.WorkerDone(r)
 	}
 	r := core.NewResult(prop, "exploration")
-	r.Rule = fmt.Sprintf("all ordered lists of length <= %d over a %d-transaction menu (all 11 tx types) on the prefix state; per list: honest miner block, %d discard candidates x every insertion position, restarted validator, fresh validator with different prior history (lists of length <= %d), redo of the change logs; a distinct outcome is (packaged count, log count, gas used)", maxLen, len(chainkit.Menu), len(chainkit.Discards), maxLen-1)
-	r.Assume = []string{"single deputy; one prefix state (funded accounts, 7 contracts, a candidate, an asset, a multi-signature account)", "Go map iteration order is not enumerated by this check (the code paths that iterate maps sort or only perform commutative updates; see DESIGN.md)"}
+	r.Rule = fmt.Sprintf("all ordered lists of length <= %d over a %d-transaction menu (all 11 tx types) on the prefix state; per list: honest miner block, %d discard candidates x every insertion position, every block gas limit at which the pool runs dry at one of the (sub-)transactions, 6 controlled map iteration orders on the miner and on restarted validators, restarted validator, fresh validator with different prior history (lists of length <= %d), redo of the change logs; a distinct outcome is (packaged count, log count, gas used)", maxLen, len(chainkit.Menu), len(chainkit.Discards), maxLen-1)
+	r.Assume = []string{"single deputy; one prefix state (funded accounts, 7 contracts, a candidate, an asset, a multi-signature account)", "map iteration order: every map loop of the instrumented packages (source overlay, pass maprange) runs under 6 controlled orders = all n! orders for maps of <= 3 keys, sorted / reversed / 3 rotations / reversed+rotated above; loops over maps in packages outside the overlay (store internals other than cblock/vote/chain_database, common/*) keep the runtime's order"}
 	r.Extra["cases"] = len(cases)
 	core.RunShards(r, core.Opt.Workers, nil, core.Opt.Budget+3*time.Minute, func(i int, tail, journal string) {
 		r.Violate(prop+"/worker-died/"+firstWords(panicLine(tail)), fmt.Sprintf("worker %d died while running %s:\n%s", i, journal, clip(tail)), map[string]string{"case": journal})
